@@ -1130,6 +1130,10 @@ type corpusT struct {
 		Note  string  `json:"note"`
 		Steps []HStep `json:"steps"`
 	} `json:"hist"`
+	Sched []struct {
+		Note string    `json:"note"`
+		Spec SchedSpec `json:"spec"`
+	} `json:"sched"`
 }
 
 func finiteT(ch [][]Tri) bool {
@@ -1159,7 +1163,19 @@ func checkC15(c *Ctx, r *Report) error {
 	csSVG := &Cases{Kind: "svg", Imports: imp, Type: "Export.svg_case", Fn: "Export.mismatches_svg", PerShard: 40}
 	impOps := "From Coq Require Import String.\nFrom Sdfx Require Import Io.Export Io.ExportOps.\nOpen Scope Q_scope."
 	csOPS := &Cases{Kind: "ops", Imports: impOps, Type: "ExportOps.ops_case", Fn: "ExportOps.mismatches_ops", PerShard: 40}
+	// write schedules of the streaming entry points (sched.go): their own cases files, a few large cases each
+	se := &schedEnv{c: c, r: r, rng: NewRng(c.Seed ^ 0x5c4ed01e5), dir: filepath.Join(dir, "sched"),
+		cases: map[string]*Cases{
+			"3mf": {Kind: "mf_sched", Imports: imp, Type: "Export.mf_case", Fn: "Export.mismatches_mf", PerShard: 2},
+			"dxf": {Kind: "dxf_sched", Imports: imp, Type: "Export.dxf_case", Fn: "Export.mismatches_dxf", PerShard: 4},
+			"svg": {Kind: "svg_sched", Imports: imp, Type: "Export.svg_case", Fn: "Export.mismatches_svg", PerShard: 6}},
+		budget: map[string]int{"3mf": TierN(c.Tier, 3600, 16000, 9000), "dxf": TierN(c.Tier, 2500, 12000, 7500), "svg": TierN(c.Tier, 2500, 12000, 7500)}}
+	if err := os.MkdirAll(se.dir, 0o755); err != nil {
+		return err
+	}
+	se.consts = readSchedConsts(c, r)
 	id := 0
+	se.nextID = func() int { id++; return id }
 
 	opsCase := func(stratum string, ops []DxfOp) {
 		if !validOps(ops) {
@@ -1345,12 +1361,13 @@ func checkC15(c *Ctx, r *Report) error {
 	writeAll := func() error {
 		r.Coverage["histories"] = histCnt
 		r.Coverage["dev_full_available"] = devfull
-		for _, cs := range []*Cases{csMF, csMB, csDXF, csSVG, csOPS} {
+		for _, cs := range []*Cases{csMF, csMB, csDXF, csSVG, csOPS, se.cases["3mf"], se.cases["dxf"], se.cases["svg"]} {
 			if err := cs.Write(c.Out); err != nil {
 				return err
 			}
 		}
-		r.Coverage["cases_in_coq"] = map[string]int{"mf": csMF.Len(), "mb": csMB.Len(), "dxf": csDXF.Len(), "svg": csSVG.Len(), "ops": csOPS.Len()}
+		r.Coverage["cases_in_coq"] = map[string]int{"mf": csMF.Len(), "mb": csMB.Len(), "dxf": csDXF.Len(), "svg": csSVG.Len(), "ops": csOPS.Len(),
+			"mf_sched": se.cases["3mf"].Len(), "dxf_sched": se.cases["dxf"].Len(), "svg_sched": se.cases["svg"].Len()}
 		return nil
 	}
 	fillReport(r)
@@ -1365,6 +1382,7 @@ func checkC15(c *Ctx, r *Report) error {
 					Chunks  json.RawMessage `json:"chunks"`
 					Ops     []DxfOp         `json:"ops"`
 					Steps   []HStep         `json:"steps"`
+					Spec    *SchedSpec      `json:"spec"`
 				} `json:"input"`
 			} `json:"failing_inputs"`
 		}
@@ -1375,8 +1393,15 @@ func checkC15(c *Ctx, r *Report) error {
 		if err := json.Unmarshal(b, &rp); err != nil {
 			return err
 		}
+		for k := range se.budget {
+			se.budget[k] = 1 << 30
+		}
 		for _, f := range rp.FailingInputs {
 			switch f.Input.Kind {
+			case "sched":
+				if f.Input.Spec != nil {
+					se.run("replay", *f.Input.Spec)
+				}
 			case "dxfops":
 				opsCase("replay", f.Input.Ops)
 			case "hist":
@@ -1434,6 +1459,9 @@ func checkC15(c *Ctx, r *Report) error {
 	for _, e := range corpus.Hist {
 		histCase("corpus", e.Steps)
 	}
+	for _, e := range corpus.Sched {
+		se.run("corpus", e.Spec)
+	}
 
 	// ---- generated
 	nMF := TierN(c.Tier, 600, 6000, 1500)
@@ -1473,6 +1501,8 @@ func checkC15(c *Ctx, r *Report) error {
 			dxfCase(st, (k/2)%3, ch)
 		}
 	}
+	// write schedules of To3MF / ToDXF / ToSVG around the buffer thresholds of the current source
+	se.strata()
 	// histories of one DXF drawing object
 	nOps := TierN(c.Tier, 160, 3000, 600)
 	for k := 0; k < nOps; k++ {
@@ -1490,7 +1520,7 @@ func checkC15(c *Ctx, r *Report) error {
 }
 
 func fillReport(r *Report) {
-	r.Rule = "3mf: triangle lists built from a vertex pool (shared, duplicate, degenerate, winding-reversed triangles; sizes 0, 1, 2..12, 20..90, 257..700; Write chunkings: one call, one per call, around 127/128/129/255/256/257, random 0..7) in eight magnitude classes (dyadic grid, arbitrary float64, tiny incl. float32 subnormals, +-5000 straddling the go3mf bucket bound 2147.48, float32 neighbours of +-2147.4836, float32 neighbours in [8,2148), 1e6..1e12, sub-micron neighbours; +-0 mixed in). dxf/svg: segment lists (zero-length, axis-parallel, connected polylines, duplicates, reversed; sizes 0, 1, 2..12, 20..90, 129..420) in seven magnitude classes through ToDXF/SaveDXF/DXF.Lines and ToSVG/SaveSVG/SVG.Line. collinear-chain: segments laid end to end along one line with bit-identical shared end points, repeated, reversed and zero-length members (horizontal, vertical, oblique on a dyadic grid) through all six DXF/SVG entry points. dxf-object-ops: histories of one DXF drawing object - NewDXF, then 0..30 random Line/Lines/Points/Triangle/Box calls (Points never / before / between / after the segment operations), Save - compared entity by entity (kind, layer, coordinates, order). go3mf-meshbuilder: the library's AddVertex driven directly on float32 corners. history: sequences of 2..6 export calls in this one process over all formats and entry points (To3MF; ToDXF/SaveDXF/NewDXF+Lines+Save; ToSVG/SaveSVG/NewSVG+Line+Save) - failed-then-retried (a call that cannot write its file: /dev/full = created but every write fails, missing directory, directory as path; then the same geometry to a good path, then geometry sharing vertices / end points with it), same-twice (same path and another path), overwrite (a file written over a larger / smaller earlier file of the same name), nested (an export started from inside the renderer of a To* call or between the calls on a drawing object, itself failing or not, sharing geometry with its host), mixed (all of these at random, formats mixed); payloads related to earlier ones (identical, re-chunked, permuted part, other triangles / segments over the same vertices, part new); every file of a call not made to fail is read back at once and judged like the file of a fresh process (same oracles, same Coq cases), and once more at the end of the history; the whole file must be one document (nothing after the root element / the EOF group). A failing history is confirmed and minimised in fresh processes. Non-trivial = at least one item (history: at least two calls and one non-empty written file); distinct by the full chunked input."
+	r.Rule = "3mf: triangle lists built from a vertex pool (shared, duplicate, degenerate, winding-reversed triangles; sizes 0, 1, 2..12, 20..90, 257..700; Write chunkings: one call, one per call, around 127/128/129/255/256/257, random 0..7) in eight magnitude classes (dyadic grid, arbitrary float64, tiny incl. float32 subnormals, +-5000 straddling the go3mf bucket bound 2147.48, float32 neighbours of +-2147.4836, float32 neighbours in [8,2148), 1e6..1e12, sub-micron neighbours; +-0 mixed in). dxf/svg: segment lists (zero-length, axis-parallel, connected polylines, duplicates, reversed; sizes 0, 1, 2..12, 20..90, 129..420) in seven magnitude classes through ToDXF/SaveDXF/DXF.Lines and ToSVG/SaveSVG/SVG.Line. collinear-chain: segments laid end to end along one line with bit-identical shared end points, repeated, reversed and zero-length members (horizontal, vertical, oblique on a dyadic grid) through all six DXF/SVG entry points. dxf-object-ops: histories of one DXF drawing object - NewDXF, then 0..30 random Line/Lines/Points/Triangle/Box calls (Points never / before / between / after the segment operations), Save - compared entity by entity (kind, layer, coordinates, order). go3mf-meshbuilder: the library's AddVertex driven directly on float32 corners. history: sequences of 2..6 export calls in this one process over all formats and entry points (To3MF; ToDXF/SaveDXF/NewDXF+Lines+Save; ToSVG/SaveSVG/NewSVG+Line+Save) - failed-then-retried (a call that cannot write its file: /dev/full = created but every write fails, missing directory, directory as path; then the same geometry to a good path, then geometry sharing vertices / end points with it), same-twice (same path and another path), overwrite (a file written over a larger / smaller earlier file of the same name), nested (an export started from inside the renderer of a To* call or between the calls on a drawing object, itself failing or not, sharing geometry with its host), mixed (all of these at random, formats mixed); payloads related to earlier ones (identical, re-chunked, permuted part, other triangles / segments over the same vertices, part new); every file of a call not made to fail is read back at once and judged like the file of a fresh process (same oracles, same Coq cases), and once more at the end of the history; the whole file must be one document (nothing after the root element / the EOF group). A failing history is confirmed and minimised in fresh processes. Non-trivial = at least one item (history: at least two calls and one non-empty written file); distinct by the full chunked input." + schedRule
 	r.Trusted = append(r.Trusted,
 		"hand model coq/Io/Export.v of write3MF / NewDXF, SaveDXF, writeDXF / SVG.Line, SVG.Save tied by differential execution (cases_mf, cases_dxf, cases_svg) on files written by the real To3MF/ToDXF/ToSVG/SaveDXF/SaveSVG",
 		"model of go3mf MeshBuilder.AddVertex + newvec3IFromVec3 (amd64 float64->int32 conversion) tied by differential execution against the library (cases_mb)",
@@ -1499,7 +1529,7 @@ func fillReport(r *Report) {
 	r.Assumptions = append(r.Assumptions,
 		"coordinates are finite and within float32 range for 3MF (NaN/Inf/overflowing inputs are not geometry; with the repaired write3MF a NaN vertex is never merged with another one)",
 		"'exact' is read at the precision the formats print: 3MF 4 decimals of the float32 value, DXF 16 decimals (exact float64 round trip from magnitude 1 upwards, checked), SVG 2 decimals of the float64 difference (tolerance: half a unit of the last digit plus one float64 rounding)",
-		"the repartition of Write calls into channel batches by Triangle3Buffer/Line2Buffer is not modelled; the theorems show the result does not depend on the batching",
+		"the repartition of Write calls into channel batches by Triangle3Buffer/Line2Buffer is not modelled; the theorems show the result does not depend on the batching; that the buffers hand the items on in write order is sampled by the schedule cases (Write sizes around the thresholds read from the source)",
 		"histories: nothing is required of a call whose file cannot be written except that it returns; exports running at the same time are produced deterministically (one export started from inside another), not by racing threads",
 		"the OPC/zip container, the DXF header/tables and the SVG prologue are the libraries' business; only the geometry, the unit, the object/build structure, the layer name and the line style are observed")
 }
